@@ -8,6 +8,7 @@ here=$(cd "$(dirname "$0")/.." && pwd)
 cd "$here"
 names="$@"; [ -z "$names" ] && names=$(ls seeded)
 git -C $R diff --quiet || { echo "/repo is dirty, refusing"; exit 2; }
+L=${RESEED_LOGDIR:-/root/work}   # per-check logs (override with RESEED_LOGDIR)
 B=$(mktemp -d /root/work/evbak.XXXX); cp evidence/*.json $B/
 for n in $names; do
   d="$here/seeded/$n"
@@ -18,13 +19,14 @@ for n in $names; do
   res=""
   for c in "$d"/check_*.txt; do
     p=$(basename "$c" .txt | cut -d_ -f2)
-    ./check "$p" quick > /root/work/reseed_${n}_${p}.log 2>&1; rc=$?
-    v=$(grep -c '^VIOLATION' /root/work/reseed_${n}_${p}.log)
-    nf=$(grep -c 'no-failing-input-found' /root/work/reseed_${n}_${p}.log)
+    ./check "$p" quick > $L/reseed_${n}_${p}.log 2>&1; rc=$?
+    v=$(grep -c '^VIOLATION' $L/reseed_${n}_${p}.log)
+    nf=$(grep -c 'no-failing-input-found' $L/reseed_${n}_${p}.log)
     res="$res $p:rc=$rc,viol=$v,nofail=$nf"
   done
   echo "$n [$how]$res"
   git -C $R reset -q --hard HEAD
+  /venv/bin/python harness/translate.py --all > /dev/null 2>&1      # no generated input of this change may leak into the next
 done
 cp $B/*.json evidence/; rm -rf $B
 /venv/bin/python harness/translate.py --all > /dev/null 2>&1
